@@ -486,17 +486,23 @@ retry_after_fb:
         if (kl > sizeof(key_slice_type)) {
             base_node* child = lv->get_next_layer();
             if (child == nullptr) {
+                // the link was removed concurrently: find the position in this layer again
                 if (early_abort) { return status::WARN_CONCURRENT_OPERATIONS; }
-//                goto retry_fetch_lv; // NOLINT
-            }
-            // TODO: implement check and retry
-
-            if (bnv_cb(bn->get_version_ptr(), v_at_fb)) {
-                return status::WARN_ABORTED_BY_USER;
+                goto retry_from_root; // NOLINT
             }
             key_tuple child_kt = right_to_left ? key_tuple::max() : key_tuple::min();
             auto child_border_node_and_v =
                 find_border(child, child_kt.get_key_slice(), child_kt.get_key_length(), check_status);
+            if (check_status != status::OK) {
+                // child is not the root of the next layer any more (it was split or
+                // removed concurrently): fetch the link again
+                if (early_abort) { return status::WARN_CONCURRENT_OPERATIONS; }
+                goto retry_from_root; // NOLINT
+            }
+
+            if (bnv_cb(bn->get_version_ptr(), v_at_fb)) {
+                return status::WARN_ABORTED_BY_USER;
+            }
             border_node* target_border = std::get<0>(child_border_node_and_v);
             // save stack context
             ctx->stack_top().bn = bn;
